@@ -38,7 +38,11 @@ inline Ell ellipsoid(EllKind kind) {
     e.f = g::sgn() * g::loguni(1e-12, fmax); e.tag = "f-loguni";
   } else if (c == 2) {   // at the documented limits
     std::vector<double> lim = {0.01, 0.02, 1 / 150.0};
-    if (kind != SERIES_FULL) { lim.push_back(0.05); lim.push_back(0.1); lim.push_back(0.2); }
+    if (kind != SERIES_FULL) {
+      lim.push_back(0.05); lim.push_back(0.1); lim.push_back(0.2);
+      // third flattening |n| = 0.1 (f = 2/11, -2/9): InverseStart switches its starting guess there
+      lim.push_back(2 / 11.0 * (1 + g::sgn() * g::loguni(1e-9, 1e-2))); lim.push_back(2 / 9.0 * (1 + g::sgn() * g::loguni(1e-9, 1e-2)));
+    }
     double v = g::oneofv(lim); if (v > fmax) v = fmax;
     e.f = g::sgn() * v; e.tag = "f-limit";
   } else if (c == 3) {   // uniform in f
@@ -55,6 +59,12 @@ inline Ell ellipsoid(EllKind kind) {
   return e;
 }
 
+// a tiny latitude: log-uniform down to 1e-300, or a few quanta of Math::AngRound (2^-57 deg = 6.9e-18 deg is the
+// smallest non-zero latitude the solvers distinguish from the equator)
+inline double tiny_lat() {
+  if (g::coin(1, 3)) return g::sgn() * std::ldexp((double)g::irange(1, 300), -57);
+  return g::sgn() * g::loguni(1e-300, 1e-5);
+}
 // a latitude in [-90, 90]: poles, equator and near-cardinal values over-weighted
 inline double latitude() {
   switch (g::wpick({40, 15, 8, 8, 10, 9, 10})) {
@@ -71,7 +81,7 @@ inline double latitude() {
       double v = g::ulps(c, (int)g::irange(-3, 3)); if (v > 90) v = 90;
       return g::sgn() * v;
     }
-    default: return g::sgn() * g::loguni(1e-300, 1e-5);                    // tiny
+    default: return tiny_lat();                                            // tiny
   }
 }
 
